@@ -221,6 +221,8 @@ def r6(ctx):
                     continue  # for-loop desugaring over a Range
                 if cal.startswith("core::slice::index") or cal.startswith("std::ops::Deref") or "deref" in cal:
                     continue
+                if cal.startswith(("core::panicking::", "std::rt::begin_panic", "core::fmt::Arguments", "core::fmt::rt::")):
+                    continue  # a panic (assert!/debug_assert!) is a rejection: it reads and writes no state that could make draws differ
                 bad.append(cal)
         paths = [x["def"] for x in walk(fn["body"]) if x.get("k") == "path" and not x["def"].startswith(("std::ops::Range",))]
         nonfn = [d for d in paths if not (d.startswith(allowed_prefix) or d in extra or d.startswith("Self:") or d.startswith("core::") or d.startswith("std::"))]
